@@ -302,7 +302,7 @@ def l2_adjust(d, it, types):
             a = lits[0]
             cnt = rep["count"] if rep else 1
             s = rep["stride"] if rep else 0
-            vals = [a, s] + [i * s for i in range(min(cnt, 300))] + [a + i * s for i in range(min(cnt, 300))]
+            vals = [a, s, cnt - 1] + [i * s for i in range(min(cnt, 300))] + [a + i * s for i in range(min(cnt, 300))]
             safe = all(r_lo <= v <= r_hi for v in vals) and (s >= 0 or r_lo < 0)
             if not safe:
                 if k == "register":
@@ -345,8 +345,14 @@ def l2_phase(ctx, exe, rng, accepted, open_ids, nmax):
         ra, ca, ba = (types.get("register") or "u8", types.get("command") or "u8", types.get("buffer") or "u8")
         lines = [x for x in e["coq"].split(";") if x]
         calls[cid] = lines
-        wo = {o["name"] for o, _, _ in ac.all_objects(d2["objects"])
-              if (o["kind"] == "register" and o.get("access") == "WO") or (o["kind"] == "ref" and o["override"].get("access") == "WO")}
+        wo = set()
+        for o, _, _ in ac.all_objects(d2["objects"]):
+            if o["kind"] == "register" and o.get("access") == "WO":
+                wo.add(o["name"])
+            elif o["kind"] == "ref" and o["override"]["kind"] == "register":
+                t = ac.find_obj(d2["objects"], o["target"])
+                if (o["override"].get("access") or (t or {}).get("access")) == "WO":
+                    wo.add(o["name"])
         for j, ln in enumerate(lines):
             kind, path, idxs, sem, dbg, rel, tags = ln.split("|")
             names = path.split(".")
